@@ -41,5 +41,65 @@ func init() {
 	generators["C01"] = generator{"hcase", "judge_history", histImports, histGen("any", 120, 3000, 9, 1)}
 	generators["C02"] = generator{"hcase", "judge_history_auth", histImports, histGen("auth", 120, 3000, 5, 1)}
 	generators["C09"] = generator{"hcase", "judge_history_window", histImports, histGen("window", 120, 3000, 4, 3)}
-	generators["C12"] = generator{"hcase", "judge_history_intact", histImports, histGen("any", 100, 3000, 7, 0)}
+	generators["C12"] = generator{"c12case", "judge_c12", histImports, genC12}
+}
+
+// C12: histories (state, operation and document snapshots around Apply) plus patch lists applied
+// directly to Go values (document and every patch value snapshotted around ApplyPatches),
+// among them lists that touch one id twice and lists that fail at their k-th patch.
+func genC12(seed int64, tier string) []caseOut {
+	out := histGen("any", 100, 3000, 7, 0)(seed, tier)
+	for i := range out {
+		out[i].Coq = "(C12H " + out[i].Coq + ")"
+	}
+	n := 60
+	if tier == "thorough" {
+		n = 2000
+	}
+	r := rand.New(rand.NewSource(seed + 7))
+	for i := 0; i < n; i++ {
+		doc := M{"publicKey": A{validKey(r, "key1"), validKey(r, "key2")}, "service": A{validService(r, "svc1")}, "other": M{"k": 1.0}}
+		switch r.Intn(4) {
+		case 0:
+			doc = M{}
+		case 1:
+			delete(doc, "service")
+		}
+		ids := []string{"key1", "key2", "key3", "key4"}
+		sids := []string{"svc1", "svc2", "svc3"}
+		var ps A
+		label := "patch-list"
+		for k := 2 + r.Intn(4); k > 0; k-- {
+			switch r.Intn(7) {
+			case 0, 1: // the same ids come back in later patches of the list
+				ps = append(ps, M{"action": "add-public-keys", "publicKeys": A{validKey(r, ids[r.Intn(len(ids))]), validKey(r, ids[r.Intn(len(ids))])}})
+			case 2:
+				ps = append(ps, M{"action": "add-services", "services": A{validService(r, sids[r.Intn(len(sids))])}})
+			case 3:
+				ps = append(ps, M{"action": "remove-public-keys", "ids": A{ids[r.Intn(len(ids))]}})
+			case 4:
+				ps = append(ps, M{"action": "add-also-known-as", "uris": A{"https://aka.example/" + randID(r, 2)}})
+			case 5:
+				ps = append(ps, M{"action": "ietf-json-patch", "patches": A{M{"op": "add", "path": "/note", "value": M{"n": A{1.0, "x"}}}}})
+			case 6: // fails at this position
+				ps = append(ps, M{"action": "ietf-json-patch", "patches": A{M{"op": "remove", "path": "/missing/member"}}})
+				label = fmt.Sprintf("patch-list,fails-at-%d", len(ps))
+			}
+		}
+		if i%3 == 0 { // an id added by one patch and re-added with other content by the next
+			ps = append(A{M{"action": "add-public-keys", "publicKeys": A{validKey(r, "key9")}}, M{"action": "add-public-keys", "publicKeys": A{validKey(r, "key9")}},
+				M{"action": "add-services", "services": A{validService(r, "svc9")}}, M{"action": "add-services", "services": A{validService(r, "svc9")}}}, ps...)
+			label += ",id-added-twice"
+		}
+		res, ok, panicked, intact := implApply(doc, ps)
+		h := sha256.Sum256([]byte(fmt.Sprint(doc, ps)))
+		out = append(out, caseOut{
+			Coq: fmt.Sprintf("(C12P %s %s %s %s)", cObj(normJSON(doc).(map[string]interface{})), cJSON(normJSON(ps))[len("(JArr "):len(cJSON(normJSON(ps)))-1],
+				coqOptObj(res, ok), cBool(intact && !panicked)),
+			Rec:    map[string]interface{}{"document": doc, "patches": ps, "impl_ok": ok, "impl_result": res, "inputs_intact": intact, "impl_panicked": panicked},
+			Label:  label,
+			NonTri: fmt.Sprintf("%x", h[:8]),
+		})
+	}
+	return out
 }
